@@ -438,6 +438,14 @@ func (g *declGen) object(fs []string, intField string, item *ItemModel) D {
 			g.templates[tn] = D{"array": []interface{}{D{"xpath": fs[0]}, D{"const": "z9"}, D{"xpath": fs[len(fs)-1]}}}
 		}
 		js := cf("javascript", D{"const": src}, D{"const": "s"}, D{"template": tn})
+		if g.t.Chance("decl.collide.argedit.twice", 1, 3) {
+			// the same declaration as two arguments of one call: two values, not one
+			src2 := "s.push('extra'); s.length + '/' + t.length"
+			if _, isObj := g.templates[tn].(D)["object"]; isObj {
+				src2 = "s.c = 'edited'; s.c + '/' + t.c"
+			}
+			js = cf("javascript", D{"const": src2}, D{"const": "s"}, D{"template": tn}, D{"const": "t"}, D{"template": tn})
+		}
 		js["keep_empty_or_null"] = true
 		if g.t.Bool("decl.collide.argedit.order") {
 			obj["ka_out"], obj["kb_js"] = D{"template": tn}, js
